@@ -243,6 +243,35 @@ def run_driver(prop, cases, timeout=1800):
 # context / results
 
 
+def file_fingerprint(relpath):
+    """whitespace/comment-insensitive AST hash of one source file of the tree under check"""
+    import ast
+    try:
+        tree = ast.parse(open(os.path.join(REPO, relpath), encoding="utf-8").read())
+    except Exception:
+        return None
+    return sha(ast.dump(tree, annotate_fields=False, include_attributes=False))
+
+
+def changed_anchor_files(prop):
+    """(F) DESIGN 2.3: the files a property is anchored in (properties.jsonl), plus the HDF5 wrappers every property
+    goes through, whose AST differs from the baseline recorded for /repo's HEAD (harness/anchor_baseline.json,
+    written by tools/anchor_baseline.py). Budget steering only: never an alarm, never a tie."""
+    try:
+        base = json.load(open(os.path.join(VERIF, "harness", "anchor_baseline.json")))
+        files = []
+        for line in open(os.path.join(VERIF, "properties.jsonl"), encoding="utf-8"):
+            rec = json.loads(line)
+            if rec.get("id") == prop:
+                files = list(rec.get("anchors", {}).get("files", []))
+        for extra in ("nixio/hdf5/h5group.py", "nixio/hdf5/h5dataset.py", "nixio/entity.py", "nixio/container.py"):
+            if extra not in files:
+                files.append(extra)
+        return [f for f in files if f in base and file_fingerprint(f) != base[f]]
+    except Exception:
+        return []
+
+
 class Ctx:
     def __init__(self, prop, tier, seed):
         self.prop = prop
@@ -252,12 +281,20 @@ class Ctx:
         self.t0 = time.time()
         self.notes = []
         self.scratch = tempfile.mkdtemp(prefix="nixverif-%s-" % prop)
+        self.changed_files = changed_anchor_files(prop)
+        self.boost = 3 if self.changed_files else 1
 
     def quick(self):
         return self.tier == "quick"
 
     def budget(self, quick, thorough):
-        return quick if self.tier == "quick" else thorough
+        """tier budget; in the quick tier a changed anchored source file triples it (capped by the thorough budget)"""
+        if self.tier != "quick":
+            return thorough
+        if self.boost > 1 and isinstance(quick, (int, float)) and isinstance(thorough, (int, float)) \
+                and not isinstance(quick, bool) and thorough > quick:
+            return type(quick)(min(thorough, quick * self.boost))
+        return quick
 
     def cleanup(self):
         shutil.rmtree(self.scratch, ignore_errors=True)
